@@ -51,6 +51,9 @@ def run(spec, rec):
     for ci in range(spec["n"]):
         rng = rng_for(seed, "C14", spec["b"], ci)
         ndim = int(rng.integers(1, 6))
+        forced_1pop = spec.get("b", 0) == 0 and ci < 2        # a labelled one-population spectrum: a single label (token) in the header
+        if forced_1pop:
+            ndim = 1
         mx = {1: 25, 2: 8, 3: 5, 4: 4, 5: 3}[ndim]
         shape = [int(rng.integers(2, mx + 1)) for _ in range(ndim)]
         if ndim > 1 and rng.random() < 0.3:
@@ -71,6 +74,8 @@ def run(spec, rec):
         folded = bool(rng.random() < 0.3) and vk in ("moderate", "integers") and all(s > 1 for s in shape)
         labels = bool(rng.random() < 0.6)
         ids = [str(rng.choice(["pop %d", "Pop_%d", "a b c %d", "YRI %d", "folded %d x", "YRI folded %d later", "un folded %d", "two  spaces %d", "tab\there %d", " lead %d", "trail %d ", "x   y    %d"])) % i for i in range(ndim)] if labels else None
+        if forced_1pop:
+            labels, ids = True, [["Pop_0"], ["one pop"]][ci]
         corners = bool(rng.integers(2))
         # the memory layout of the array behind a spectrum is not part of what is stored: Fortran-ordered input, and spectra
         # that are strided views (what reorder_pops / transpose / swapaxes return), must write the same file
